@@ -17,6 +17,7 @@ def run(rep, tier, seed):
     configs = [
         dict(name="hist3", maxinstr=3, maxhist=3, ops="OpsHist", points="PtsP1small", seeds="SeedsA", max_replay=mr or 30000),
         dict(name="hist_drv", maxinstr=2, maxhist=3, ops="OpsDrvO", points="PtsOne", seeds="SeedsB", max_replay=mr or 30000),
+        dict(name="other_while_recording", maxinstr=3, maxhist=2, ops="OpsOtherRec", points="PtsP1small", seeds="SeedsB", max_replay=mr or 30000),
         dict(name="hist_seta", maxinstr=2, maxhist=3, ops="OpsH3", points="PtsP1small", seeds="SeedsB", max_replay=mr or 30000),
         dict(name="hist_div", maxinstr=3, maxhist=3, ops="OpsH2", points="PtsD2b", seeds="SeedsB", max_replay=mr or 30000),
     ]
